@@ -225,17 +225,17 @@ def render_xml(m, rng=None, gui=True, cdata=False, empty_elems=False):
     if m.get("queries"):
         o.append("<queries>")
         for k, v in m.get("model_options", []):
-            o.append('<option key="%s" value="%s"/>' % (esc(k), esc(v)))
+            o.append('<option key="%s" value="%s"/>' % (plain_esc(k), plain_esc(v)))
         for q in m["queries"]:
             if isinstance(q, str):
                 o.append("<query><formula>%s</formula><comment>c</comment></query>" % esc(q))
                 continue
             o.append("<query><formula>%s</formula><comment>%s</comment>" % (esc(q["formula"]), esc(q.get("comment", ""))))
             for k, v in q.get("options", []):
-                o.append('<option key="%s" value="%s"/>' % (esc(k), esc(v)))
+                o.append('<option key="%s" value="%s"/>' % (plain_esc(k), plain_esc(v)))
             ex = q.get("expect")
             if ex:
-                o.append('<expect outcome="%s" type="%s" value="%s">' % (ex["outcome"], ex["type"], esc(ex["value"])))
+                o.append('<expect outcome="%s" type="%s" value="%s">' % (ex["outcome"], ex["type"], plain_esc(ex["value"])))
                 for r in ex.get("resources", []):
                     o.append('<resource type="%s" value="%s" unit="%s"/>' % r)
                 o.append("</expect>")
@@ -282,16 +282,16 @@ def render_xta(m, rng=None):
         o.append("state " + ", ".join(sts) + ";\n")
         if t["branchpoints"]:
             o.append("branchpoint " + ", ".join("_" + b for b in t["branchpoints"]) + ";\n")
-        com = [loc_name(l) for l in t["locations"] if l.get("flag") == "committed"]
-        urg = [loc_name(l) for l in t["locations"] if l.get("flag") == "urgent"]
+        com = [loc_name(l) for l in t["locations"] if l.get("flag") == "committed" or l.get("both_flags")]
+        urg = [loc_name(l) for l in t["locations"] if l.get("flag") == "urgent" or l.get("both_flags")]
         # the document records flags per location, so the order of the two lists is free
         parts = []
         if com:
             parts.append("commit " + ", ".join(com) + ";\n")
         if urg:
             parts.append("urgent " + ", ".join(urg) + ";\n")
-        if rng is not None and len(parts) == 2 and rng.random() < 0.5:
-            parts.reverse()
+        if rng is not None and len(parts) == 2 and rng.random() < 0.5 and not any(l.get("both_flags") for l in t["locations"]):
+            parts.reverse()     # (a location in both lists keeps the flag named first: the XML reader's order is commit, urgent)
         o.extend(parts)
         o.append("init %s;\n" % names[t["init"]])
         if t["edges"]:
